@@ -6,7 +6,7 @@ ID = "C17"
 TOL = (1e-6, 1e-9)
 BOUNDS = {
     "quick": "leading M/m followed by every sequence of 2 commands over the 20 letters, cut between the two commands (every way a can end x every way b can begin), "
-             "plus 3-command smooth/close chains cut at every boundary and into three pieces; methods +, +=, parse(), Move-segment + string; Path+Path, Path+Shape; all numbers symbolic",
+             "plus 3-command smooth/close chains cut at every boundary and into three pieces; methods +, +=, parse(), Move-segment + string; Path+Path, Path+Shape; all numbers symbolic; Path + rect with a pending symbolic uniform-scale-and-translate transform",
     "thorough": "every sequence of 3 commands, all cuts (two and three pieces)",
 }
 OUTSIDE = ["sequences longer than the bound", "arc geometry (recorder stub, as C01)", "Path.append/extend with strings (not named by the property)"]
@@ -78,9 +78,14 @@ def h_concat(ctx, cmds_a, cmds_b, how):
         else:
             x, y = gen.num(), gen.num()
             w, h = gen.num(1e-3, 1e5), gen.num(1e-3, 1e5)
-            if how == "rect":
+            if how in ("rect", "rect_t"):
                 B = S.Rect(x, y, w, h)
                 pts = [(x, y), (x + w, y), (x + w, y + h), (x, y + h)]
+                if how == "rect_t":
+                    # a shape with a pending transform is drawn where the transform puts it
+                    tx, ty, k = gen.num(), gen.num(), gen.num(0.5, 4)
+                    B = S.Rect(x, y, w, h, transform=S.Matrix(k, 0, 0, k, tx, ty))
+                    pts = [(k * px + tx, k * py + ty) for px, py in pts]
                 ob = [dict(kind="Move", start=None, end=pts[0]), dict(kind="Line", start=pts[0], end=pts[1]), dict(kind="Line", start=pts[1], end=pts[2]),
                       dict(kind="Line", start=pts[2], end=pts[3]), dict(kind="Close", start=pts[3], end=pts[0])]
             elif how == "line":
@@ -162,7 +167,7 @@ def harnesses(tier):
     for e in enders:
         ca = [("M", 1, False), (e, _grp(e, 0), False)]
         for how, cb in (("path", [("M", 1, False), ("l", 1, False), ("z", 0, False)]), ("path", [("m", 2, False), ("t", 1, False)]),
-                        ("rect", None), ("line", None), ("polygon", None)):
+                        ("rect", None), ("rect_t", None), ("line", None), ("polygon", None)):
             hs.append({"name": "concat/%s/%s%s" % (_name(ca), how, _name(cb) if cb else ""), "fn": "h_concat",
                        "params": {"cmds_a": [list(c) for c in ca], "cmds_b": [list(c) for c in cb] if cb else None, "how": how}})
     hs.append({"name": "twin/relative", "fn": "h_twin", "twin": True})
